@@ -109,6 +109,18 @@ impl<'t> Macro<'t> {
         args: Vec<R>,
         macros: &HashMap<&'t str, Macro<'t>>,
     ) -> super::Result<'t, MultiOp> {
+        self.process_nested(name, regs, args, macros, &mut vec![name])
+    }
+
+    /// `stack` holds the names of the macros currently being expanded, outermost first.
+    fn process_nested(
+        &self,
+        name: &'t str,
+        regs: Vec<N>,
+        args: Vec<R>,
+        macros: &HashMap<&'t str, Macro<'t>>,
+        stack: &mut Vec<&'t str>,
+    ) -> super::Result<'t, MultiOp> {
         if regs.len() != self.regs.len() {
             return Err(super::Error::WrongRegNumber(name, regs.len()));
         }
@@ -137,10 +149,13 @@ impl<'t> Macro<'t> {
 
                 let op_res = match macros.get(*name_i) {
                     Some(_macro) => {
-                        if &name == name_i {
+                        if stack.contains(name_i) {
                             return Err(Error::RecursiveMacro(name_i).into());
                         }
-                        _macro.process(name_i, regs_i, args_i, macros)?
+                        stack.push(name_i);
+                        let op_res = _macro.process_nested(name_i, regs_i, args_i, macros, stack);
+                        stack.pop();
+                        op_res?
                     }
                     None => gates::process(name_i, regs_i, args_i)?,
                 };
